@@ -464,6 +464,51 @@ def eval_construct(case):
     return out
 
 
+def eval_adaptive_mixed(case):
+    """a + b / a += b for adaptive fixed-width histograms of every dtype pair whose bins differ (both get re-binned)."""
+    from physt import h1, h2
+
+    ta, tb = case["a"], case["b"]
+    dim = case["dim"]
+
+    def mk(vals, t, shift):
+        if dim == 1:
+            return h1(np.array(vals) + shift, "fixed_width", bin_width=1.0, adaptive=True, dtype=t)
+        x = np.array(vals) + shift
+        return h2(x, x[::-1].copy(), "fixed_width", bin_width=[1.0, 1.0], adaptive=True, dtype=t)
+
+    a = mk([0.5, 1.5, 1.5], ta, 0.0)
+    b = mk([0.5, 2.5], tb, 4.0)
+    out = []
+    want = np.promote_types(np.dtype(ta), np.dtype(tb))
+    results = {}
+    r = call(lambda: a + b)
+    results["add"] = r
+    c = a.copy()
+
+    def iadd():
+        nonlocal c
+        c += b
+        return c
+
+    results["iadd"] = call(iadd)
+    results["sum"] = call(lambda: sum([a, b]))
+    for name, r in results.items():
+        sig = f"adaptive_mixed|{dim}D|{name}|{kind_of(ta)}+{kind_of(tb)}"
+        if not r.ok:
+            out.append(V("must_succeed", f"{sig}|{exc_sig(r.exc)}", case, "a sum", r.describe()))
+            continue
+        hh = r.value
+        dt = np.dtype(hh.dtype)
+        if hh.frequencies.dtype != dt or hh.errors2.dtype != dt:
+            out.append(V("dtype_consistency", f"dtype_consistency|{sig}", case, str(dt), [str(hh.frequencies.dtype), str(hh.errors2.dtype)]))
+        if dt != want:
+            out.append(V("dtype_exact", f"dtype_exact|{sig}", case, str(want), str(dt)))
+        if not eq_exact(hh.total, Fraction(5)):
+            out.append(V("values", f"values|{sig}", case, 5, hh.total))
+    return out
+
+
 def units(tier, seed):
     thorough = tier == "thorough"
     us = []
@@ -476,6 +521,7 @@ def units(tier, seed):
                 depth = 4
             us.append({"kind": "bfs", "config": {"dim": dim, "start": start, "depth": depth}})
     us.append({"kind": "construct"})
+    us.append({"kind": "adaptive_mixed"})
     return us
 
 
@@ -488,6 +534,17 @@ def run_unit(unit, ctx):
         for k in seen:
             p.outcome(k[0])
         p.sample({"config": unit["config"], "a_state_history": H.listify(list(seen.values())[-1][3])})
+    elif unit["kind"] == "adaptive_mixed":
+        for dim in (1, 2):
+            for ta in DTYPES:
+                for tb in DTYPES:
+                    case = {"a": ta, "b": tb, "dim": dim}
+                    vs = eval_adaptive_mixed(case)
+                    p.ev(ta != tb)
+                    p.states += 1
+                    p.transitions += 3
+                    p.extend(vs)
+        p.sample(case)
     else:
         for fn in ("h1", "h2", "h"):
             for dtype in [None] + DTYPES:
@@ -503,6 +560,8 @@ def run_unit(unit, ctx):
 def replay(case):
     if "fn" in case:
         return eval_construct(case)
+    if "a" in case and "dim" in case:
+        return eval_adaptive_mixed(case)
     sysm = DtypeSystem(dict(case["config"], depth=99))
     vs, model, obj = H.replay_history(sysm, case["history"], case.get("op"))
     if vs or "other_history" not in case:
